@@ -387,7 +387,13 @@ def mon_c04(spec, rec, solver_obj=None):
         if sn["evaluations"] != sn["n_cost_calls"]:
             key = "%s/evaluations-counter" % solver
             if solver == "DE2" and not have_mon:
-                key = "DE2/evaluations-counter/null-evalmon-skips-inf-energies"
+                # the known class: without an evaluation monitor DE2 counts `len(trialEnergy) - isinf(trialEnergy).sum()`, so
+                # a REAL call whose cost (or cost + penalty) is inf is not counted - the counter falls short by exactly the
+                # number of such calls; any other discrepancy (e.g. counting candidates the box test never evaluated) is not it
+                n_inf = sum(1 for (_, y) in rec.cost_calls[:sn["n_cost_calls"]] if (y == INF if not isinstance(y, list) else any(t == INF for t in y)))
+                short = sn["n_cost_calls"] - sn["evaluations"]
+                if 0 < short and (short <= n_inf or spec.get("penalty") is not None):
+                    key = "DE2/evaluations-counter/null-evalmon-skips-inf-energies"
             elif solver == "DE2" and em_start > 0:
                 key = "DE2/evaluations-counter/restarts-with-new-evaluation-monitor"
             out.append((key, "solver.evaluations = %d but the user's cost was called %d times" % (sn["evaluations"], sn["n_cost_calls"]), {"op_index": si}))
@@ -423,6 +429,12 @@ def mon_c04(spec, rec, solver_obj=None):
                 if sn["n_stepmon"] != sn["generations"] + 1:
                     out.append(("Powell/stepmon-stale/stop-detected-before-step" if (solver == "Powell" and sn["live"] and op in ("step", "solve") and d_calls == 0) else "%s/stepmon-length" % solver, "stopped run: %d step records for %d generations" % (sn["n_stepmon"], sn["generations"]), {"op_index": si}))
         prev_cb = sn["n_cb"]; prev_calls = sn["n_cost_calls"]; prev_sm = sn["n_stepmon"]
+    # `monitor + other` builds a new monitor: len(left + right) = len(left) + len(right), the attached operand keeps its records
+    # (the counters derived from it are re-checked by the clauses above after every such op)
+    for which, n_left, n_merged, n_other in getattr(rec, "monadd", []):
+        if n_left >= 0 and n_merged != n_left + n_other:
+            out.append(("%s/monitor-sum-length" % solver, "%s monitor with %d records + a monitor with %d records has %d records" % (which, n_left, n_other, n_merged), {}))
+            break
     # evaluation monitor content == calls in order (checked at the end on the live object)
     if solver_obj is not None and have_mon:
         em = solver_obj._evalmon
